@@ -249,7 +249,9 @@ class Cell(NullCell):
             payload += ser_result
             serialized_cells_len.append(len(ser_result))
 
-        payload_len = (len(payload).bit_length() + 7) // 8
+        # offsets in the index are doubled when cache bits are stored in their lowest bit
+        max_offset = len(payload) * 2 if has_cache_bits else len(payload)
+        payload_len = (max_offset.bit_length() + 7) // 8
 
         root_num = 1  # currently 1
         root_index = b'\00' * cells_len
@@ -266,8 +268,12 @@ class Cell(NullCell):
                  root_index
 
         if has_idx:
+            # index entry i = offset of the end of cell i in the cells data (cumulative), see crypto/tl/boc.tlb
+            end_offset = 0
             for l in serialized_cells_len:
-                result += l.to_bytes(payload_len, 'big')
+                end_offset += l
+                entry = end_offset * 2 if has_cache_bits else end_offset
+                result += entry.to_bytes(payload_len, 'big')
         result += payload
         if hash_crc32:
             result += crc32c(result)
